@@ -209,7 +209,7 @@ class Scope:
         """The unique assignment expression that `name` denotes at `use`, or None when
         unknown / ambiguous / not a plain single assignment."""
         ds = self.defs.get(name)
-        if not ds or name in self.aug or name in self.mutated:
+        if not ds or name in self.mutated:
             return None
         uo = self.order.get(use)
         if uo is None:
